@@ -358,4 +358,121 @@ theorem loadMain_connected_key {fs : FS} {fuel : Nat} {main : Seg} {st : St}
   · exact hk
   · exact key _ _ hr hk
 
+/-! ## Part 4: the files-only criterion -/
+
+theorem closedUnder_step {fs : FS} {S : List Ns} (hc : closedUnder fs S = true) {a b : Ns}
+    (ha : a ∈ S) (e : Edge fs a b) : b ∈ S := by
+  obtain ⟨f, hf, hb⟩ := e
+  unfold closedUnder at hc
+  have h1 := List.all_eq_true.1 hc a ha
+  simp only [hf] at h1
+  have h2 := List.all_eq_true.1 h1 b hb
+  simpa using h2
+
+theorem connected_mem_of_closed {fs : FS} {main : Seg} {S : List Ns} (hc : closedUnder fs S = true)
+    (hm : [main] ∈ S) : ∀ x, Connected fs main x → x ∈ S := by
+  have key : ∀ a b, Reach fs a b → a ∈ S → b ∈ S := by
+    intro a b hr
+    induction hr with
+    | single e => exact fun ha => closedUnder_step hc ha e
+    | step e _ ih => exact fun ha => ih (closedUnder_step hc ha e)
+  intro x hx
+  rcases hx with rfl | hr
+  · exact hm
+  · exact key _ _ hr hm
+
+/-- an unresolvable reference is not `docResolvable` when nothing that is still being loaded is
+among the file's imports (in particular: acyclic import graph) -/
+theorem Unres.not_docResolvable {fs : FS} {ns : Ns} {anc : List Ns} {f : File} {r : Ref}
+    (hf : fs ns = some f) (hn : ns ∉ anc) (hd : ∀ i ∈ absImports ns f, i ∉ anc)
+    (h : Unres fs ns anc r) : docResolvable fs ns f r = false := by
+  unfold Unres at h
+  unfold docResolvable
+  cases hq : r.qual with
+  | none =>
+    rw [hq] at h
+    simp only at h ⊢
+    have : specResolve fs ns anc r = specResolve fs ns [] r := by
+      unfold specResolve
+      rw [hq]
+      simp only [hf]
+      split
+      · rfl
+      · split
+        · rfl
+        · congr 1
+          apply find?_congr'
+          intro i hi
+          simp [hd i hi]
+    rw [docResolve, ← this, h]; rfl
+  | some q =>
+    rw [hq] at h
+    simp only at h ⊢
+    by_cases hdir : q = ns ∨ q ∈ absImports ns f
+    · have hqa : q ∉ anc := by
+        rcases hdir with e | hm
+        · rw [e]; exact hn
+        · exact hd q hm
+      simp [h f hf hdir hqa]
+    · have h1 : decide (q = ns) = false := by
+        simp; exact fun e => hdir (.inl e)
+      have h2 : (absImports ns f).contains q = false := by
+        simp; exact fun e => hdir (.inr e)
+      rw [h1, h2]; rfl
+
+theorem acyclic_imports_not_anc {fs : FS} (hac : Acyclic fs) {ns : Ns} {anc : List Ns} {f : File}
+    (hf : fs ns = some f) (hch : Chain fs (ns :: anc)) :
+    ns ∉ anc ∧ ∀ i ∈ absImports ns f, i ∉ anc := by
+  refine ⟨fun h => hac ns (hch.reach ns h), fun i hi hia => ?_⟩
+  exact hac ns (.step ⟨f, hf, hi⟩ (hch.reach i hia))
+
+theorem All2.of_mem {α β} {R : α → β → Prop} : ∀ {as : List α} {bs : List β}, All2 R as bs →
+    ∀ a ∈ as, ∃ b ∈ bs, R a b
+  | _, _, .nil, a, h => by simp at h
+  | _, _, .cons r rest, a, h => by
+    rcases List.mem_cons.1 h with rfl | h'
+    · exact ⟨_, List.mem_cons_self .., r⟩
+    · obtain ⟨b, hb, hr⟩ := All2.of_mem rest a h'
+      exact ⟨b, List.mem_cons_of_mem _ hb, hr⟩
+
+theorem docLoadable_spec {fs : FS} {S : List Ns} {main : Seg} (h : docLoadable fs S main = true) :
+    ∀ x, Connected fs main x → ∃ f, fs x = some f ∧
+      ∀ rule ∈ f.rules, ∀ r ∈ rule.refs, docResolvable fs x f r = true := by
+  unfold docLoadable at h
+  simp only [Bool.and_eq_true] at h
+  obtain ⟨⟨hm, hc⟩, hall⟩ := h
+  intro x hx
+  have hxS := connected_mem_of_closed hc (by simpa using hm) x hx
+  have hx' := List.all_eq_true.1 hall x hxS
+  cases hf : fs x with
+  | none => rw [hf] at hx'; simp at hx'
+  | some f =>
+    rw [hf] at hx'
+    simp only at hx'
+    exact ⟨f, rfl, fun rule hrule r hr =>
+      List.all_eq_true.1 (List.all_eq_true.1 hx' rule hrule) r hr⟩
+
+/-- Reference `r` of file `x` (= `f`) can be resolved while the files `anc` are still being
+loaded: the positive counterpart of `Unres`. -/
+def ResolvableNow (fs : FS) (x : Ns) (anc : List Ns) (f : File) (r : Ref) : Prop :=
+  match r.qual with
+  | none => (specResolve fs x anc r).isSome = true
+  | some q => (q = x ∨ q ∈ absImports x f) ∧ q ∉ anc ∧ fsDefines fs q r.name = true
+
+theorem ResolvableNow.not_unres {fs : FS} {x : Ns} {anc : List Ns} {f : File} {r : Ref}
+    (hf : fs x = some f) (h : ResolvableNow fs x anc f r) : ¬ Unres fs x anc r := by
+  unfold ResolvableNow at h
+  unfold Unres
+  cases hq : r.qual with
+  | none =>
+    rw [hq] at h
+    simp only at h ⊢
+    intro hn; rw [hn] at h; cases h
+  | some q =>
+    rw [hq] at h
+    simp only at h ⊢
+    intro hn
+    have := hn f hf h.1 h.2.1
+    rw [h.2.2] at this; cases this
+
 end Imp
